@@ -84,7 +84,25 @@ def compile_check_cpp(path, wdir, thorough=False):
     return res
 
 
-CALL_RE = re.compile(r"CALL w=(\w+) root=(\d+) known_params=(\d) nlog=(\d+)(.*) ret_ok=(-?\d+) box_drops=(\d+) arc_clones=(\d+) arc_drops=(\d+) clone_seq=(\d+) drop_first=(\d+) drop_last=(\d+)(?: after_box=(\d+) after_clones=(\d+) after_arc=(\d+))?")
+CALL_RE = re.compile(r"CALL w=(\w+) root=(\d+) known_params=(\d) nlog=(\d+)(.*) ret_ok=(-?\d+) box_drops=(\d+) arc_clones=(\d+) arc_drops=(\d+) clone_seq=(\d+) drop_first=(\d+) drop_last=(\d+)(?: after_box=(\d+) after_clones=(\d+) after_arc=(\d+))?(?: box_seq=(\d+))?")
+
+
+def parse_sizes(text):
+    return {int(m.group(1)): (int(m.group(2)), int(m.group(3))) for m in re.finditer(r"^SIZEOF root=(\d+) obj=(\d+) cont=(\d+)$", text, re.M)}
+
+
+def judge_sizes(em, model, sizes, mode):
+    """the processed header must describe objects of exactly the size the Rust side gives them"""
+    viol = []
+    n = 0
+    for ri, (obj, cont) in sorted(sizes.items()):
+        r = em.roots[ri]
+        want = emit.rust_sizes(model, r["kind"], r["name"], r["inst"], r["ctx"])
+        n += 1
+        if (obj, cont) != want:
+            viol.append(("header-object-size", "%s header: %s %s (%s, %s) is %d bytes with a %d-byte container; the Rust definitions give %d / %d" % (
+                mode, r["kind"], r["name"], r["inst"], r["ctx"] or "NoContext", obj, cont, want[0], want[1])))
+    return viol, n
 
 
 def parse_calls(text):
@@ -97,6 +115,8 @@ def parse_calls(text):
                      box_drops=int(m.group(7)), arc_clones=int(m.group(8)), arc_drops=int(m.group(9)), clone_seq=int(m.group(10)), drop_first=int(m.group(11)), drop_last=int(m.group(12)))
             if m.group(13) is not None:
                 c.update(after_box=int(m.group(13)), after_clones=int(m.group(14)), after_arc=int(m.group(15)))
+            if m.group(16) is not None:
+                c["box_seq"] = int(m.group(16))
             calls.append(c)
     return calls
 
@@ -118,6 +138,7 @@ def cpp_error_class(err):
 def drive_cpp(wdir, em, model, out_path, header_text, compilers=(("g++", "-std=c++11"),)):
     """one driver per root type and compiler; returns dict(calls=[...], failures=[(root index, class, message)], roots_run)"""
     calls, failures, ran = [], [], 0
+    sizes = {}
     for ri, r in enumerate(em.roots):
         src, n = driver_cpp.gen_root_driver(os.path.basename(out_path), em, model, header_text, ri)
         dp = os.path.join(wdir, "drv%d.cpp" % ri)
@@ -137,8 +158,9 @@ def drive_cpp(wdir, em, model, out_path, header_text, compilers=(("g++", "-std=c
                 continue
             if ci == 0:
                 calls += parse_calls(x["out"])
+                sizes.update(parse_sizes(x["out"]))
             ran += 1
-    return dict(calls=calls, failures=failures, roots_run=ran, done=True, wrappers=[])
+    return dict(calls=calls, failures=failures, roots_run=ran, done=True, wrappers=[], sizes=sizes)
 
 
 def drive(wdir, em, model, out_path, header_text):
@@ -152,7 +174,7 @@ def drive(wdir, em, model, out_path, header_text):
         return dict(build_error=r["err"][:3000], wrappers=wrappers, calls=[])
     x = common.run([exe], env=common.env_with({"ASAN_OPTIONS": "detect_leaks=0:halt_on_error=1:exitcode=77"}), timeout=120)
     calls = parse_calls(x["out"])
-    return dict(run_rc=x["rc"], run_err=x["err"][:2000], done="DONE calls=" in x["out"], wrappers=wrappers, calls=calls)
+    return dict(run_rc=x["rc"], run_err=x["err"][:2000], done="DONE calls=" in x["out"], wrappers=wrappers, calls=calls, sizes=parse_sizes(x["out"]))
 
 
 def judge(em, model, res, only_roots=None):
@@ -171,6 +193,9 @@ def judge(em, model, res, only_roots=None):
             wa = 1 if r["ctx"] == "Arc" else 0
             if c["box_drops"] != wb or c["arc_drops"] != wa or c["arc_clones"] != 0:
                 viol.append(("C17:drop-helper-release-count", "%s: instance released %d times (want %d), context released %d times (want %d), cloned %d times" % (what, c["box_drops"], wb, c["arc_drops"], wa, c["arc_clones"])))
+            elif wb and wa and "box_seq" in c and not (c["box_seq"] < c["drop_first"]):
+                # the context is what keeps the code of the instance's destructor loaded: it must go last
+                viol.append(("C17:drop-helper-releases-context-before-instance", "%s: context released at step %d, instance at step %d" % (what, c["drop_first"], c["box_seq"])))
             continue
         if c["nlog"] != 1:
             viol.append(("C17:wrapper-call-count", "%s reached %d vtable entries (want exactly 1)" % (what, c["nlog"])))
